@@ -640,20 +640,16 @@ func checkCase(c c03Case) (o pbt.Outcome) {
 				}
 			}
 		}
-		probs, onlyDup := copyProblems(want, got)
+		probs := copyProblems(want, got)
 		o.NonTrivial = len(want) >= 2
 		if len(probs) > 0 {
 			sort.Strings(probs)
 			detail := fmt.Sprintf("global table %s (slices %v locations %v databases %v): %s (sql %q)", g.Table, g.RuleSlices, g.Locations, g.Databases, strings.Join(probs, "; "), c.SQL)
-			// C03-F2 (root cause of C04-F1): several configured locations are the same
-			// physical copy (same slice, same database) and each gets the statement
-			if onlyDup {
-				o.Known, o.KnownWhat = "C03-F2", detail
-				return
-			}
-			// C03-F3 (root cause of C04-F2): the rule lists other slices than the first
-			// ones of the namespace, in namespace order; Gaea ignores the rule's slice
-			// names and uses namespace slice i for the rule's i-th entry
+			// C03-F3 (open; root cause of C04-F2): the rule lists other slices than the
+			// first ones of the namespace, in namespace order; Gaea ignores the rule's
+			// slice names and uses namespace slice i for the rule's i-th entry. Accepted
+			// only when the statements are exactly one per copy of that substituted
+			// layout; anything else (duplicates, a missing copy) stays a violation.
 			if !isPrefixOrder(g.RuleSlices) {
 				g2 := g
 				g2.RuleSlices = nil
@@ -664,7 +660,7 @@ func checkCase(c c03Case) (o pbt.Outcome) {
 				for _, cp := range g2.Copies() {
 					want2[loc{cp.Slice, cp.DB}]++
 				}
-				if p2, _ := copyProblems(want2, got); len(p2) == 0 {
+				if len(copyProblems(want2, got)) == 0 {
 					o.Known, o.KnownWhat = "C03-F3", detail
 					return
 				}
@@ -714,15 +710,9 @@ func checkCase(c c03Case) (o pbt.Outcome) {
 	if len(seenTable) >= 2 {
 		o.Labels = append(o.Labels, "split_over_tables")
 	}
-	var all, literalRows []int
-	nonLitRows := 0
-	for i, rc := range classes {
+	var all []int
+	for i := range classes {
 		all = append(all, i)
-		if rc.nonLit {
-			nonLitRows++
-		} else if rc.routable {
-			literalRows = append(literalRows, i)
-		}
 	}
 	ver := &verifier{f: f, in: in, classes: classes, out: out, sql: c.SQL, stmts: stmts, target: target, keyCol: keyCol, seqCol: seqColName}
 	var problem string
@@ -742,19 +732,6 @@ func checkCase(c c03Case) (o pbt.Outcome) {
 	if problem == "" {
 		return
 	}
-	// C03-F1: VALUES form, every row whose sharding value is not a literal is
-	// silently left out, and that is the only thing wrong: the literal rows are
-	// written once, in the right place, and nothing else is.
-	onlyNonLitUnroutable := true
-	for _, rc := range classes {
-		if !rc.routable && !rc.nonLit {
-			onlyNonLitUnroutable = false
-		}
-	}
-	if !in.setForm && nonLitRows > 0 && onlyNonLitUnroutable && ver.verify(literalRows) == "" {
-		o.Known, o.KnownWhat = "C03-F1", problem
-		return
-	}
 	o.Violation = problem
 	return
 }
@@ -770,30 +747,23 @@ func isPrefixOrder(rs []int) bool {
 	return true
 }
 
-// copyProblems compares the statements per (slice, database) with the copies;
-// onlyDup: the only thing wrong is that a copy configured through n > 1
-// locations got the statement n times.
-func copyProblems(want, got map[loc]int) (probs []string, onlyDup bool) {
-	onlyDup = true
-	for lc, n := range want {
+// copyProblems compares the statements per (slice, database) with the copies:
+// each copy must get the statement exactly once and nothing else may get it.
+func copyProblems(want, got map[loc]int) (probs []string) {
+	for lc := range want {
 		if got[lc] == 0 {
 			probs = append(probs, fmt.Sprintf("copy %s/%s gets nothing", lc.slice, lc.db))
-			onlyDup = false
 		} else if got[lc] > 1 {
 			probs = append(probs, fmt.Sprintf("copy %s/%s gets the statement %d times", lc.slice, lc.db, got[lc]))
-			if got[lc] != n {
-				onlyDup = false // not one statement per configured location of that copy
-			}
 		}
 	}
 	for lc := range got {
 		if want[lc] == 0 {
 			probs = append(probs, fmt.Sprintf("%s/%s is not a copy but gets the statement", lc.slice, lc.db))
-			onlyDup = false
 		}
 	}
 	sort.Strings(probs)
-	return probs, onlyDup && len(probs) > 0
+	return probs
 }
 
 type written struct {
